@@ -34,6 +34,7 @@ type hOp struct {
 	N    int    `json:"n,omitempty"`    // ack: up to N pending events; ackidx: index; saveend/crash: writes applied
 	Fail bool   `json:"fail,omitempty"` // save / saveend: the store rejects
 	Ord  []int  `json:"ord,omitempty"`  // saveend / crash: per-vBucket write order seed
+	Torn int    `json:"torn,omitempty"` // crash on the file backend: the process dies inside a save's file write, leaving 1: an empty file, 2: half of the content, 3: a prefix chosen by N
 }
 
 type hScenario struct {
@@ -148,6 +149,7 @@ type session struct {
 	lo, hi         int      // currently assigned range
 	old            []*oldEv // events of earlier sessions of this stream object (before a rebalance)
 	stopped        bool
+	torn           bool                      // the checkpoint file was left torn by a crash inside a save
 	queued         *queuedSave               // a second Save() issued while one is in flight (waits for the save lock)
 	onRebalance    func(op hOp) (lo, hi int) // C16: announce a new membership through the real discovery
 	rebalances     int
@@ -299,7 +301,7 @@ func (s *session) buildModel(nOpens int) {
 		m.uuid = o.UUID
 		s.checkResumeUntorn(m)
 		if s.metaI != nil {
-			if want := s.saved[o.Vb]; m.resume != want {
+			if want := s.saved[o.Vb]; m.resume != want && !s.torn {
 				s.fail("C02", "vb %d: session opened at %+v, the checkpoint last persisted through the file backend is %+v", o.Vb, m.resume, want)
 			}
 			if len(s.saved) > 0 {
@@ -1381,6 +1383,25 @@ func (s *session) crash(op hOp) {
 		s.meta.block = false
 		s.meta.mu.Unlock()
 	}
+	if s.metaI != nil && op.Torn > 0 {
+		// the process dies inside the file write of a save (os.WriteFile truncates, then writes): what remains is an
+		// empty file or a prefix of the new content
+		within(20*time.Second, func() { s.st.Save() })
+		if b, err := os.ReadFile(s.fpath); err == nil && len(b) > 2 {
+			k := 0
+			switch op.Torn {
+			case 2:
+				k = len(b) / 2
+			case 3:
+				k = 1 + ((op.N%(len(b)-2))+(len(b)-2))%(len(b)-2)
+			}
+			_ = os.WriteFile(s.fpath, b[:k], 0o644)
+			s.torn = true
+			s.label("crash_torn_file")
+			fmt.Println("TORN_RESTART")
+			_ = os.Stdout.Sync()
+		}
+	}
 	s.label("crash")
 	type unsettled struct {
 		seq uint64
@@ -1423,9 +1444,14 @@ func (s *session) crash(op hOp) {
 		}
 	}
 	if s.metaI != nil {
-		anyDoc = len(s.saved) > 0
+		// a torn file is what a save leaves that the process died in: a checkpoint exists, the restart is not a first start
+		anyDoc = len(s.saved) > 0 || s.torn
 	}
 	s.open()
+	if s.torn {
+		s.label("torn_restart_started")
+		s.stopped = true // the stored state is no longer the model's: the history ends with this restart's check
+	}
 	for vb, u := range first {
 		m := s.vbs[vb]
 		if m == nil {
